@@ -56,7 +56,12 @@ def gen1(data: bytes):
     smi = rdgen.organic_smiles(tp, max_heavy=9)
     if smi is None:
         smi = "C[C@H](F)Cl"
-    return {"part": 1, "smiles": smi, "embed_seed": 1 + tp.below(10**6)}
+    case = {"part": 1, "smiles": smi, "embed_seed": 1 + tp.below(10**6)}
+    if tp.chance(128):
+        mol = rdgen.mol_from_smiles(smi)
+        if mol is not None:
+            case["perm"] = tp.shuffle(range(mol.GetNumAtoms()))
+    return case
 
 
 def _desc(s):
@@ -93,6 +98,14 @@ def check_organic(ctx, case):
     if Chem.MolToSmiles(chk) != Chem.MolToSmiles(mol):
         ctx.exclude("embedding-changed-stereo")
         return None
+    if case.get("perm"):
+        # the same embedded molecule with its atoms (and therefore the begin
+        # / end atoms of its bonds) in another order; the conformer follows
+        perm = [int(x) for x in case["perm"]]
+        if sorted(perm) != list(range(m3.GetNumAtoms())):
+            raise HarnessError("perm")
+        m3 = Chem.RenumberAtoms(m3, perm)
+        mol = Chem.RenumberAtoms(mol, perm)
     conf = m3.GetConformer()
     elems = [a.GetAtomicNum() for a in m3.GetAtoms()]
     coords = [tuple(conf.GetAtomPosition(i)) for i in range(len(elems))]
